@@ -12,7 +12,8 @@
      * NOT modelled (PARTIAL): the optimiser.  Theorems quantify over EVERY vector of the box ([box_spec]); that NLopt
        returns such a vector is a contract checked on the sampled fits only (hook: _verif_x_raw in _verif_bnds).
        Finiteness of the coefficients and the uncertainty f_unc are checked by the oracle on samples only;
-     * fix_identical_bnds is an uninterpreted function with the contract "non-degenerate rows are left alone". *)
+     * fix_identical_bnds is modelled as coded (symmetric widening of identical bounds by 10 ** OoM); the theorems
+       about the box hold for every start vector, degenerate rows included. *)
 From Coq Require Import Reals Lra List Bool PrimFloat.
 From V Require Import Model.Num Model.NumR Model.NumF Model.DailyCurve Model.DailyCurveRun Model.Refine
                       Proofs.DailyCurveProofs Proofs.RefineProofs.
@@ -56,52 +57,88 @@ Theorem C12_refine_admissible : forall Tmin Tmax Tminseg Tmaxseg qlo qhi,
 Proof. exact (refine_admissible lo hi). Qed.
 Print Assumptions C12_refine_admissible.
 
-(* the box the fit functions construct implies box_spec.  [fixid] is fix_identical_bnds (contract in the hypothesis);
-   [Tlo,Thi] is [T_min_seg,T_max_seg] (final fit) or [T_min,T_max] (initial fit); slopes / smoothing rows are
-   arbitrary (they come from get_bnds(x0)) and only their lower end is clipped at 0 *)
-Theorem C12_box_sound_full_smooth : forall Tmin Tmax qlo qhi (fixid : R * R -> R * R),
-  (forall r : R * R, fst r < snd r -> fixid r = r) ->
-  forall Tlo Thi, Tmin <= Tlo /\ Tlo <= Thi /\ Thi <= Tmax -> qlo < qhi ->
+(* the box the fit functions construct implies box_spec.  fix_identical_bnds is modelled AS CODED
+   (Model/Refine.v: fix_identical_row -- identical bounds are widened symmetrically by 10 ** OoM, so [0,0] -> [-10,10]);
+   [Tlo,Thi] is [T_min_seg,T_max_seg] (final fit) or [T_min,T_max] (initial fit); the slope / smoothing rows r1.. of the
+   start box and nb (get_bnds(x0)) are ARBITRARY: zero slopes, zero k, identical, reversed or negative rows included *)
+Print fix_identical_row.
+Print oom_width.
+
+(* whatever the start vector: the lower end of every slope / smoothing row handed to the optimiser is >= 0
+   (this is the order "sort, widen identical rows, THEN clamp at 0" of _hdd_tidd_cdd_smooth_update_bnds) *)
+Theorem C12_slope_rows_nonneg_full_smooth : forall (nb b0 B : list (R * R)),
+  update_bnds_full_smooth RNum (fix_identical_row RNum) nb b0 = Some B ->
+  exists r0 r1 r2 r3 r4 r5 r6 : R * R,
+    B = [r0; r1; r2; r3; r4; r5; r6] /\ 0 <= fst r1 /\ 0 <= fst r2 /\ 0 <= fst r4 /\ 0 <= fst r5.
+Proof. exact (slope_rows_nonneg_full_smooth lo hi). Qed.
+Print Assumptions C12_slope_rows_nonneg_full_smooth.
+
+Theorem C12_slope_rows_nonneg_full : forall (nb b0 B : list (R * R)),
+  update_bnds_full RNum (fix_identical_row RNum) nb b0 = Some B ->
+  exists r0 r1 r2 r3 r4 : R * R, B = [r0; r1; r2; r3; r4] /\ 0 <= fst r1 /\ 0 <= fst r3.
+Proof. exact (slope_rows_nonneg_full lo hi). Qed.
+Print Assumptions C12_slope_rows_nonneg_full.
+
+Theorem C12_k_row_nonneg_c_smooth : forall (nb b0 B : list (R * R)),
+  update_bnds_c_smooth RNum (fix_identical_row RNum) nb b0 = Some B ->
+  exists r0 r1 r2 r3 : R * R, B = [r0; r1; r2; r3] /\ 0 <= fst r2.
+Proof. exact (k_row_nonneg_c_smooth lo hi). Qed.
+Print Assumptions C12_k_row_nonneg_c_smooth.
+
+(* non-vacuity on the degenerate pattern that matters: both initial slopes zero, rows [0,0] *)
+Example ex_degenerate_slope_rows :
+  update_bnds_full_smooth RNum (fix_identical_row RNum)
+    [(14, 85); (0, 0); (0, 1); (14, 85); (0, 0); (0, 1); (0, 100)]
+    [(14, 85); (0, 0); (0, 1); (14, 85); (0, 0); (0, 1); (0, 100)]
+  = Some [(14, 85); (0, 0 + 10); (0, 1); (14, 85); (0, 0 + 10); (0, 1); (0, 100)].
+Proof.
+  unfold update_bnds_full_smooth, fix_identical_row, sort_row, clip_lower_0, oom_width, n_ten, n_two. cbn.
+  unfold Rltb, Reqb.
+  repeat (match goal with
+          | |- context [Rlt_dec ?a ?b] => destruct (Rlt_dec a b)
+          | |- context [Req_EM_T ?a ?b] => destruct (Req_EM_T a b)
+          end; cbn [fst snd] in *; try lra).
+  repeat f_equal; lra.
+Qed.
+
+Theorem C12_box_sound_full_smooth : forall Tmin Tmax qlo qhi Tlo Thi,
+  Tmin <= Tlo /\ Tlo <= Thi /\ Thi <= Tmax -> qlo < qhi ->
   forall nb r1 r2 r4 r5 B raw, Tlo < Thi ->
-  update_bnds_full_smooth RNum fixid nb [(Tlo, Thi); r1; r2; (Tlo, Thi); r4; r5; (qlo, qhi)] = Some B ->
+  update_bnds_full_smooth RNum (fix_identical_row RNum) nb [(Tlo, Thi); r1; r2; (Tlo, Thi); r4; r5; (qlo, qhi)] = Some B ->
   in_box RNum B raw = true -> box_spec Tmin Tmax qlo qhi KFullSmooth raw.
-Proof. exact (box_sound_full_smooth lo hi). Qed.
+Proof. exact (box_sound_full_smooth_coded lo hi). Qed.
 Print Assumptions C12_box_sound_full_smooth.
 
-Theorem C12_box_sound_full : forall Tmin Tmax qlo qhi (fixid : R * R -> R * R),
-  (forall r : R * R, fst r < snd r -> fixid r = r) ->
-  forall Tlo Thi, Tmin <= Tlo /\ Tlo <= Thi /\ Thi <= Tmax -> qlo < qhi ->
+Theorem C12_box_sound_full : forall Tmin Tmax qlo qhi Tlo Thi,
+  Tmin <= Tlo /\ Tlo <= Thi /\ Thi <= Tmax -> qlo < qhi ->
   forall nb r1 r3 B raw, Tlo < Thi ->
-  update_bnds_full RNum fixid nb [(Tlo, Thi); r1; (Tlo, Thi); r3; (qlo, qhi)] = Some B ->
+  update_bnds_full RNum (fix_identical_row RNum) nb [(Tlo, Thi); r1; (Tlo, Thi); r3; (qlo, qhi)] = Some B ->
   in_box RNum B raw = true -> box_spec Tmin Tmax qlo qhi KFull raw.
-Proof. exact (box_sound_full lo hi). Qed.
+Proof. exact (box_sound_full_coded lo hi). Qed.
 Print Assumptions C12_box_sound_full.
 
 (* one-sided layouts, including the pinned balance point (Tlo = Thi) *)
-Theorem C12_box_sound_c_smooth : forall Tmin Tmax qlo qhi (fixid : R * R -> R * R),
-  (forall r : R * R, fst r < snd r -> fixid r = r) ->
-  forall Tlo Thi, Tmin <= Tlo /\ Tlo <= Thi /\ Thi <= Tmax -> qlo < qhi ->
+Theorem C12_box_sound_c_smooth : forall Tmin Tmax qlo qhi Tlo Thi,
+  Tmin <= Tlo /\ Tlo <= Thi /\ Thi <= Tmax -> qlo < qhi ->
   forall nb r1 r2 B raw,
-  update_bnds_c_smooth RNum fixid nb [(Tlo, Thi); r1; r2; (qlo, qhi)] = Some B ->
+  update_bnds_c_smooth RNum (fix_identical_row RNum) nb [(Tlo, Thi); r1; r2; (qlo, qhi)] = Some B ->
   in_box RNum B raw = true -> box_spec Tmin Tmax qlo qhi KCSmooth raw.
-Proof. exact (box_sound_c_smooth lo hi). Qed.
+Proof. exact (box_sound_c_smooth_coded lo hi). Qed.
 Print Assumptions C12_box_sound_c_smooth.
 
-Theorem C12_box_sound_c : forall Tmin Tmax qlo qhi (fixid : R * R -> R * R),
-  (forall r : R * R, fst r < snd r -> fixid r = r) ->
-  forall Tlo Thi, Tmin <= Tlo /\ Tlo <= Thi /\ Thi <= Tmax -> qlo < qhi ->
+Theorem C12_box_sound_c : forall Tmin Tmax qlo qhi Tlo Thi,
+  Tmin <= Tlo /\ Tlo <= Thi /\ Thi <= Tmax -> qlo < qhi ->
   forall nb r1 B raw,
-  update_bnds_c RNum fixid nb [(Tlo, Thi); r1; (qlo, qhi)] = Some B ->
+  update_bnds_c RNum (fix_identical_row RNum) nb [(Tlo, Thi); r1; (qlo, qhi)] = Some B ->
   in_box RNum B raw = true -> box_spec Tmin Tmax qlo qhi KC raw.
-Proof. exact (box_sound_c lo hi). Qed.
+Proof. exact (box_sound_c_coded lo hi). Qed.
 Print Assumptions C12_box_sound_c.
 
-Theorem C12_box_sound_tidd : forall Tmin Tmax qlo qhi (fixid : R * R -> R * R),
-  (forall r : R * R, fst r < snd r -> fixid r = r) -> qlo < qhi ->
+Theorem C12_box_sound_tidd : forall Tmin Tmax qlo qhi, qlo < qhi ->
   forall B raw,
-  update_bnds_tidd RNum fixid [(qlo, qhi)] = Some B ->
+  update_bnds_tidd RNum (fix_identical_row RNum) [(qlo, qhi)] = Some B ->
   in_box RNum B raw = true -> box_spec Tmin Tmax qlo qhi KTidd raw.
-Proof. exact (box_sound_tidd lo hi). Qed.
+Proof. exact (box_sound_tidd_coded lo hi). Qed.
 Print Assumptions C12_box_sound_tidd.
 
 (* ------------------------------------------------------------------ read-back: where stored = scored is proved *)
@@ -297,11 +334,14 @@ Example ex_box_sound : forall raw,
   box_spec 10 90 0 100 KFullSmooth raw.
 Proof.
   intros raw H.
-  apply (C12_box_sound_full_smooth 10 90 0 100 (fun r => r) (fun r _ => eq_refl) 14 85) with
+  apply (C12_box_sound_full_smooth 10 90 0 100 14 85) with
     (nb := [(14, 85); (-1, 3); (-1/2, 1); (14, 85); (5, 0); (0, 1); (0, 100)])
     (r1 := (0, 1)) (r2 := (0, 1)) (r4 := (0, 1)) (r5 := (0, 1))
     (B := [(14, 85); (0, 3); (0, 1); (14, 85); (0, 5); (0, 1); (0, 100)]); try lra; try exact H.
-  unfold update_bnds_full_smooth, sort_row, clip_lower_0. cbn. unfold Rltb.
-  repeat (match goal with |- context [Rlt_dec ?a ?b] => destruct (Rlt_dec a b) end; cbn [fst snd] in *; try lra).
+  unfold update_bnds_full_smooth, fix_identical_row, sort_row, clip_lower_0. cbn. unfold Rltb, Reqb.
+  repeat (match goal with
+          | |- context [Rlt_dec ?a ?b] => destruct (Rlt_dec a b)
+          | |- context [Req_EM_T ?a ?b] => destruct (Req_EM_T a b)
+          end; cbn [fst snd] in *; try lra).
   reflexivity.
 Qed.
